@@ -7,6 +7,7 @@ import (
 	"net"
 	"sort"
 	"strings"
+	"sync"
 	"testing"
 	"time"
 
@@ -143,6 +144,12 @@ func drawPath(rt *rapid.T) pathDesc {
 }
 
 func judgePath(p pathDesc, seed uint64, sizes []int) (sig, msg string, neg *negotiated) {
+	return judgePathWalk(p, seed, sizes, 0)
+}
+
+// judgePathWalk: after the listed sizes every length 1..walkTo is moved each way as one write (the negotiated record
+// type and codec have their own boundary lengths: last record of an answer, label and string limits, padding).
+func judgePathWalk(p pathDesc, seed uint64, sizes []int, walkTo int) (sig, msg string, neg *negotiated) {
 	client, user, srv, comm, herr, pmsg, nonterm := runHandshake(p, seed)
 	defer func() {
 		if client != nil {
@@ -189,6 +196,13 @@ func judgePath(p pathDesc, seed uint64, sizes []int) (sig, msg string, neg *nego
 		}
 		if e := exchange(client, user, up, down, 30*time.Second); e != "" {
 			return "negotiated-parameters-do-not-work", fmt.Sprintf("the handshake reported success (%+v) but %d bytes each way do not arrive intact over the same path: %s", *neg, n, e), neg
+		}
+	}
+	for n := 1; n <= walkTo; n++ {
+		up := vlib.PRF(seed+uint64(n)*3, 0, n)
+		down := vlib.PRF(seed+uint64(n)*3+1, 0, n)
+		if e := exchange(client, user, up, down, 20*time.Second); e != "" {
+			return "negotiated-parameters-do-not-work", fmt.Sprintf("the handshake reported success (%+v) but a write of %d bytes each way (after every smaller length) does not arrive intact over the same path: %s", *neg, n, e), neg
 		}
 	}
 	return "", "", neg
@@ -241,18 +255,46 @@ func TestEveryRecordTypeSubset(t *testing.T) {
 	} else {
 		masks = []int{1, 2, 4, 8, 16, 32, 64, 128, 255, 0xC0, 0x30}
 	}
+	type result struct {
+		p        pathDesc
+		sig, msg string
+		neg      *negotiated
+	}
+	var todo []int
 	for i, mask := range masks {
-		if i%shards != shard {
-			continue
+		if i%shards == shard {
+			todo = append(todo, mask)
 		}
-		p := pathDesc{Domain: "example.org"}
-		for k, tp := range allTypes {
-			if mask&(1<<uint(k)) != 0 {
-				p.Answered = append(p.Answered, typeNames[tp])
+	}
+	results := make([]result, len(todo))
+	var wg sync.WaitGroup
+	sem := make(chan struct{}, 12) // the paths are independent listeners over their own simulated wires
+	for i, mask := range todo {
+		wg.Add(1)
+		go func(i, mask int) {
+			defer wg.Done()
+			sem <- struct{}{}
+			defer func() { <-sem }()
+			p := pathDesc{Domain: "example.org"}
+			for k, tp := range allTypes {
+				if mask&(1<<uint(k)) != 0 {
+					p.Answered = append(p.Answered, typeNames[tp])
+				}
 			}
-		}
-		sort.Strings(p.Answered)
-		sig, msg, neg := judgePath(p, uint64(mask)+7, []int{1, 700, 2500})
+			sort.Strings(p.Answered)
+			walk := 0
+			if mask&(mask-1) == 0 || mask == 255 {
+				// single answered type (the path forces that type) and the transparent path: every write length
+				walk = vlib.Pick(450, 2600)
+			}
+			r := result{p: p}
+			r.sig, r.msg, r.neg = judgePathWalk(p, uint64(mask)+7, []int{1, 700, 2500}, walk)
+			results[i] = r
+		}(i, mask)
+	}
+	wg.Wait()
+	for _, r := range results {
+		p, sig, msg, neg := r.p, r.sig, r.msg, r.neg
 		outcome := "handshake-failed"
 		if neg != nil {
 			outcome = "negotiated:" + neg.QType
